@@ -258,6 +258,12 @@ def write(detector, spec, salt=0, spec_odd=None, track=False):
         elif b == "charge":
             v = value_for("charge", st, shape, salt) * mul
             how = opt.get("how", "array")
+            if how == "scale":
+                # in-place update of the existing clusters through the public API (as charge-transport models do)
+                fr = detector.charge.frame
+                if len(fr):
+                    detector.charge.set_frame_values("number", [2.0 * float(x) for x in fr["number"].values],
+                                                     id_list=[int(i) for i in fr.index])
             if how in ("array", "both"):
                 detector.charge.add_charge_array(v)
             if how in ("clusters", "both"):
@@ -283,7 +289,10 @@ def write(detector, spec, salt=0, spec_odd=None, track=False):
         elif b == "signal":
             _assign(detector, "signal", (value_for("signal", st, shape, salt) * mul).astype(opt.get("dtype", "float64")), opt)
         elif b == "image":
-            _assign(detector, "image", image_values(opt.get("vals", "ramp"), opt.get("dtype", "uint16"), st, shape, salt), opt)
+            dt = opt.get("dtype", "uint16")
+            if opt.get("by_step"):            # the model chooses the unsigned type per step (e.g. an auto-ranging converter)
+                dt = opt["by_step"][min(step, len(opt["by_step"]) - 1)]
+            _assign(detector, "image", image_values(opt.get("vals", "ramp"), dt, st, shape, salt), opt)
         elif b == "scene":
             if opt is not False and spec[b]:
                 detector.scene.add_source(scene_source(step, salt))
